@@ -2,15 +2,136 @@ package main
 
 // Listener path, wrappers/transforms and the JSON view (oracle-only: the stdlib decoders behind
 // them are not modelled).
+//
+// Decoders of this file (worker side):
+//   hs:<profile>   a fresh bare Listener (real handle/talk/receive code) gets ONE connection
+//                  carrying the input bytes: before registration
+//   hr:<profile>   the same after a valid hello of device A registered a Session
+//   b64:<shift>    transform.B64Shift(shift).Read (modelled: Decoders.v b64_read)
+// After the measured connection the worker checks that the Listener still serves: a valid hello
+// of a fresh device is answered and registered.
 
 import (
+	"bytes"
+	"encoding/base64"
 	"encoding/json"
 	"fmt"
+	"strconv"
+	"strings"
 
 	"github.com/iDigitalFlame/xmt/c2"
+	"github.com/iDigitalFlame/xmt/c2/cfg"
+	"github.com/iDigitalFlame/xmt/c2/transform"
+	"github.com/iDigitalFlame/xmt/com"
+	"github.com/iDigitalFlame/xmt/data"
+	"github.com/iDigitalFlame/xmt/device"
 )
 
-func workerInit() {}
+// ---------------------------------------------------------------- profiles
+
+type profile struct {
+	name string
+	set  []cfg.Setting
+	w    cfg.Wrapper
+	t    cfg.Transform
+}
+
+var profiles []*profile
+
+func mkProfiles() {
+	key := []byte("0123456789abcdef0123456789abcdef")
+	iv := []byte("fedcba9876543210")
+	host := cfg.Host("127.0.0.1:1")
+	defs := []struct {
+		name string
+		set  []cfg.Setting
+	}{
+		{"none", nil},
+		{"hex", []cfg.Setting{cfg.WrapHex}},
+		{"b64w", []cfg.Setting{cfg.WrapBase64}},
+		{"zlib", []cfg.Setting{cfg.WrapZlib}},
+		{"gzip", []cfg.Setting{cfg.WrapGzip}},
+		{"xor", []cfg.Setting{cfg.WrapXOR(key[:7])}},
+		{"aes", []cfg.Setting{cfg.WrapAES(key, iv)}},
+		{"cbk", []cfg.Setting{cfg.WrapCBK(11, 22, 33, 44)}},
+		{"tb64", []cfg.Setting{cfg.TransformB64}},
+		{"tb64s", []cfg.Setting{cfg.TransformB64Shift(5)}},
+		{"tdns", []cfg.Setting{cfg.TransformDNS("example.com")}},
+		{"zlib+tdns", []cfg.Setting{cfg.WrapZlib, cfg.TransformDNS("a.bc")}},
+		{"aes+hex+tb64s", []cfg.Setting{cfg.WrapAES(key, iv), cfg.WrapHex, cfg.TransformB64Shift(200)}},
+	}
+	for _, d := range defs {
+		p, err := cfg.Pack(append([]cfg.Setting{host, cfg.ConnectTCP}, d.set...)...).Build()
+		if err != nil {
+			panic("profile " + d.name + ": " + err.Error())
+		}
+		_, w, t := p.Next()
+		profiles = append(profiles, &profile{d.name, d.set, w, t})
+	}
+}
+
+func profileByName(n string) *profile {
+	for _, p := range profiles {
+		if p.name == n {
+			return p
+		}
+	}
+	return nil
+}
+
+var serverKeys data.KeyPair
+
+func workerInit() {
+	mkProfiles()
+	serverKeys.Fill()
+}
+
+// ---------------------------------------------------------------- worker side
+
+func devA() device.ID { return devID(0x41) }
+func devB() device.ID { return devID(0x61) }
+
+func serveOne(l *c2.Listener, in []byte) *c2.VerifC04Conn {
+	c := &c2.VerifC04Conn{In: bytes.NewReader(in)}
+	c2.VerifC04Handle(l, c)
+	c2.VerifC04Pump(l)
+	return c
+}
+
+// decodeHandle drives the real connection handler.
+func decodeHandle(kind string, p *profile, in []byte) ([]uint64, string, error) {
+	l := c2.VerifC04Listener(serverKeys, &c2.VerifC04Mux{}, p.w, p.t)
+	if kind == "hr" {
+		h, err := c2.VerifC04Encode(p.w, p.t, c2.VerifC04Hello(devA(), false))
+		if err != nil {
+			return nil, "setup:cannot encode the hello: " + err.Error(), nil
+		}
+		serveOne(l, h)
+		if !c2.VerifC04Registered(l, devA()) {
+			return nil, "setup:the valid hello did not register", nil
+		}
+	}
+	before := c2.VerifC04SessionCount(l)
+	c := serveOne(l, in)
+	after := c2.VerifC04SessionCount(l)
+	// the JSON view of every Session the input created or touched
+	extra := ""
+	for _, s := range c2.VerifC04Sessions(l) {
+		if e := jsonCheck(s); e != "" {
+			extra = e
+		}
+	}
+	// the server keeps serving
+	h, err := c2.VerifC04Encode(p.w, p.t, c2.VerifC04Hello(devB(), false))
+	if err == nil && !c2.VerifC04Registered(l, devB()) {
+		c2 := serveOne(l, h)
+		_ = c2
+	}
+	if extra == "" && !c2.VerifC04Registered(l, devB()) {
+		extra = "stopped:a valid hello is no longer registered after the hostile connection"
+	}
+	return []uint64{uint64(after - before), uint64(c.Out.Len())}, extra, nil
+}
 
 func jsonCheck(s *c2.Session) (r string) {
 	defer func() {
@@ -29,7 +150,250 @@ func jsonCheck(s *c2.Session) (r string) {
 }
 
 func decodeMore(dec string, in []byte) ([]uint64, string, error) {
+	switch {
+	case strings.HasPrefix(dec, "hs:"), strings.HasPrefix(dec, "hr:"):
+		p := profileByName(dec[3:])
+		if p == nil {
+			return nil, "", fmt.Errorf("unknown profile %s", dec)
+		}
+		return decodeHandle(dec[:2], p, in)
+	case strings.HasPrefix(dec, "b64:"):
+		n, _ := strconv.Atoi(dec[4:])
+		var w bytes.Buffer
+		if err := transform.B64Shift(n).Read(in, &w); err != nil {
+			return nil, "", err
+		}
+		return u64s(w.Bytes()), "", nil
+	}
 	return nil, "", fmt.Errorf("unknown decoder %s", dec)
 }
 
-func generateMore(corpus bool) {}
+// ---------------------------------------------------------------- parent side: generation
+
+// stdB64 is what encoding/base64 answers for the input (observed input of the model: the
+// stdlib decoder is not modelled): the decoded bytes, or nothing on a CorruptInputError.
+func stdB64(in []byte) ([]byte, bool) {
+	o := make([]byte, base64.StdEncoding.DecodedLen(len(in)))
+	n, err := base64.StdEncoding.Decode(o, in)
+	if err != nil {
+		return nil, false
+	}
+	return o[:n], true
+}
+
+func encode(p *profile, n *com.Packet) []byte {
+	b, err := c2.VerifC04Encode(p.w, p.t, n)
+	if err != nil {
+		panic("encode " + p.name + ": " + err.Error())
+	}
+	return append([]byte{}, b...)
+}
+
+// plain packets (before wrapping) a registered or unregistered client may send
+func clientPackets() map[string]func() *com.Packet {
+	sub := func(id uint8, dev device.ID, fl com.Flag, body []byte) *com.Packet {
+		v := &com.Packet{ID: id, Job: 9, Flags: fl, Device: dev}
+		v.Write(body)
+		return v
+	}
+	multi := func(dev device.ID, fl com.Flag, subs ...*com.Packet) *com.Packet {
+		n := &com.Packet{ID: 0, Flags: com.FlagMulti | fl, Device: dev}
+		for _, v := range subs {
+			v.MarshalStream(n)
+		}
+		n.Flags.SetLen(uint16(len(subs)))
+		n.Flags &^= com.FlagFrag
+		return n
+	}
+	frag := func(pos, ln, grp uint16) com.Flag {
+		var f com.Flag
+		f.SetGroup(grp)
+		f.SetLen(ln)
+		f.SetPosition(pos)
+		return f
+	}
+	return map[string]func() *com.Packet{
+		"hello":      func() *com.Packet { return c2.VerifC04Hello(devA(), false) },
+		"hello-keys": func() *com.Packet { return c2.VerifC04Hello(devA(), true) },
+		"ping":       func() *com.Packet { return &com.Packet{ID: 0, Device: devA()} },
+		"data":       func() *com.Packet { return sub(0xC0, devA(), 0, pat(40, 3)) },
+		"tags": func() *com.Packet {
+			n := sub(0xC0, devA(), 0, pat(8, 3))
+			n.Tags = []uint32{0x11223344, 0xdeadbeef, 0x11223344}
+			return n
+		},
+		"frag0":    func() *com.Packet { return sub(0xC0, devA(), frag(0, 3, 7), pat(16, 1)) },
+		"frag2":    func() *com.Packet { return sub(0xC0, devA(), frag(2, 3, 9), pat(16, 1)) },
+		"frag1of1": func() *com.Packet { return sub(0xC0, devA(), frag(0, 1, 9), pat(16, 1)) },
+		"multi": func() *com.Packet {
+			return multi(devA(), 0, sub(0xC0, devA(), 0, pat(5, 1)), sub(0xC1, devA(), 0, pat(300, 2)))
+		},
+		"multi-nested": func() *com.Packet {
+			return multi(devA(), 0, multi(devA(), 0, sub(0xC0, devA(), 0, pat(5, 1))), sub(0xC1, devA(), frag(0, 1, 3), pat(3, 2)))
+		},
+		"multidev": func() *com.Packet {
+			return multi(devA(), com.FlagMultiDevice, sub(0xC0, devA(), 0, pat(5, 1)), c2.VerifC04Hello(devID(0x81), false), sub(0xC0, devID(0x91), 0, pat(4, 4)))
+		},
+		// a Multi container whose sub-packet is an EMPTY hello of an unregistered device (talkSub)
+		"multidev-empty-hello": func() *com.Packet {
+			return multi(devA(), com.FlagMultiDevice, &com.Packet{ID: 2, Device: devID(0x81)})
+		},
+		"empty-hello": func() *com.Packet { return &com.Packet{ID: 2, Device: devID(0x71)} },
+		"oneshot":     func() *com.Packet { return sub(0xC0, devA(), com.FlagOneshot, pat(9, 9)) },
+		"shutdown":    func() *com.Packet { return &com.Packet{ID: 5, Device: devA()} },
+		"resync":      func() *com.Packet { return sub(7, devA(), 0, []byte{2, 1, 2, 3}) },
+	}
+}
+
+var packetOrder = []string{"hello", "hello-keys", "ping", "data", "tags", "frag0", "frag2", "frag1of1", "multi", "multi-nested",
+	"multidev", "multidev-empty-hello", "empty-hello", "oneshot", "shutdown", "resync"}
+
+// plainBytes is the unwrapped wire form of a packet.
+func plainBytes(n *com.Packet) []byte {
+	var b bytes.Buffer
+	n.Marshal(&b)
+	return append([]byte{}, b.Bytes()...)
+}
+
+// rewrap parses hostile PLAINTEXT wire bytes as far as needed to push them through the real
+// wrapper and transform writers of a profile: the hostile bytes become what the server's
+// Unmarshal sees behind the wrapper.
+func rewrap(p *profile, plain []byte) []byte {
+	if p.w == nil && p.t == nil {
+		return plain
+	}
+	var c data.Chunk
+	if p.w != nil {
+		o, err := p.w.Wrap(&c)
+		if err != nil {
+			panic(err)
+		}
+		o.Write(plain)
+		o.Close()
+	} else {
+		c.Write(plain)
+	}
+	if p.t == nil {
+		return append([]byte{}, c.Payload()...)
+	}
+	var b bytes.Buffer
+	if err := p.t.Write(c.Payload(), &b); err != nil {
+		panic(err)
+	}
+	return append([]byte{}, b.Bytes()...)
+}
+
+func runHandle(kind string, p *profile, in []byte, class string) {
+	run(kind+":"+p.name, in, class)
+}
+
+func generateMore(corpus bool) {
+	if profiles == nil {
+		mkProfiles()
+		serverKeys.Fill()
+	}
+	pk := clientPackets()
+	none := profileByName("none")
+	if corpus {
+		// regression: the Multi container with an empty hello of an unregistered device used to
+		// spin in talkSub -> readDeviceInfo -> io.ReadFull over a never-written Chunk
+		runHandle("hr", none, plainBytes(pk["multidev-empty-hello"]()), "corpus")
+		runHandle("hs", none, plainBytes(pk["empty-hello"]()), "corpus")
+		// a decompression bomb: 4 MiB of zeros as the body of a hello, through the zlib wrapper
+		for _, pn := range []string{"zlib", "gzip"} {
+			p := profileByName(pn)
+			n := &com.Packet{ID: 2, Device: devA()}
+			n.Write(make([]byte, 4<<20))
+			runHandle("hs", p, encode(p, n), "corpus")
+		}
+		return
+	}
+	nRandom := 6
+	if thorough {
+		nRandom = 400
+	}
+	for _, p := range profiles {
+		for _, name := range packetOrder {
+			n := pk[name]()
+			plain := plainBytes(n)
+			kind := "hr"
+			if strings.HasPrefix(name, "hello") || name == "empty-hello" {
+				kind = "hs"
+			}
+			wire := rewrap(p, plain)
+			runHandle(kind, p, wire, "valid")
+			if kind == "hr" {
+				runHandle("hs", p, wire, "valid") // the same packet from an unregistered device
+			}
+			full := thorough || p.name == "none" || p.name == "tdns" || p.name == "zlib" || p.name == "aes+hex+tb64s"
+			// hostile wire bytes: truncations and single-byte mutations of what is on the wire
+			step := len(wire)/6 + 1
+			if full {
+				step = len(wire)/24 + 1
+			}
+			for i := 0; i < len(wire); i += step {
+				runHandle(kind, p, wire[:i], "wire-truncated")
+				x := append([]byte{}, wire...)
+				x[i] ^= 0x80
+				runHandle(kind, p, x, "wire-mutated")
+			}
+			if !full {
+				continue
+			}
+			// hostile plaintext behind the wrapper: truncations, and mutations of the header
+			// (flags, tag count, length class, length) and of the first body bytes
+			for i := 32; i < len(plain); i += len(plain)/16 + 1 {
+				runHandle(kind, p, rewrap(p, plain[:i]), "plain-truncated")
+			}
+			for _, pos := range []int{32, 35, 36, 42, 43, 44, 45, 46, 47, 48, 50, 60, 78, 79, 80, 91, 92, 93} {
+				if pos >= len(plain) {
+					continue
+				}
+				for _, v := range []byte{0, 1, 0x7f, 0xff} {
+					if plain[pos] == v {
+						continue
+					}
+					x := append([]byte{}, plain...)
+					x[pos] = v
+					runHandle(kind, p, rewrap(p, x), "plain-mutated")
+				}
+			}
+		}
+		for i := 0; i < nRandom; i++ {
+			runHandle("hs", p, rng.Bytes(rng.Intn(120)), "random")
+			x := plainBytes(pk["multi"]())
+			for k := 0; k < 3; k++ {
+				x[32+rng.Intn(len(x)-32)] = byte(rng.U64())
+			}
+			runHandle("hr", p, rewrap(p, x), "random")
+		}
+	}
+	// ---- base64 shift transform (modelled)
+	for _, shift := range []int{0, 5, 200} {
+		d := "b64:" + strconv.Itoa(shift)
+		for _, n := range []int{0, 1, 2, 3, 4, 30, 600} {
+			e := []byte(base64.StdEncoding.EncodeToString(pat(n, 7)))
+			run(d, e, "valid")
+			for i := 0; i < len(e) && i < 12; i++ {
+				run(d, e[:i], "truncated")
+			}
+			if len(e) > 2 {
+				x := append([]byte{}, e...)
+				x[1] = '!'
+				run(d, x, "mutated")
+				x = append([]byte{}, e...)
+				x[len(x)-1] = '='
+				run(d, x, "mutated")
+			}
+		}
+		for i := 0; i < 4*nRandom; i++ {
+			b := rng.Bytes(rng.Intn(24))
+			if rng.Intn(2) == 0 {
+				for k := range b {
+					b[k] = "ABCDwxyz0189+/="[int(b[k])%15]
+				}
+			}
+			run(d, b, "random")
+		}
+	}
+}
